@@ -243,8 +243,13 @@ def run_one(h, prefix, opts):
         sym_obs = [(l, plain(eval_under(model, v))) for (l, v) in ctx.observations]
         CS, cexc = run_concrete(h, final)
         conc_obs = [(l, plain(v)) for (l, v) in CS.observations]
-        ok = (cexc is None and len(sym_obs) == len(conc_obs)
-              and all(a[0] == b[0] and obs_equal(a[1], b[1]) for a, b in zip(sym_obs, conc_obs)))
+        if ctx.uf_used:
+            # log/exp are uninterpreted in the model: only the structure and the
+            # proven obligations are compared, not numeric values
+            ok = cexc is None and [a[0] for a in sym_obs] == [b[0] for b in conc_obs]
+        else:
+            ok = (cexc is None and len(sym_obs) == len(conc_obs)
+                  and all(a[0] == b[0] and obs_equal(a[1], b[1]) for a, b in zip(sym_obs, conc_obs)))
         proved = set(l for (l, s, _, _) in obligations if s == "unsat")
         bad_props = [l for (l, r, _) in CS.results if not r and l in proved]
         if ok and bad_props and not any(o[1] == "sat" for o in obligations):
@@ -257,8 +262,11 @@ def run_one(h, prefix, opts):
                 sym_obs = nice_obs
                 CS, cexc = run_concrete(h, nice)
                 conc_obs = [(l, plain(v)) for (l, v) in CS.observations]
-                ok = (cexc is None and len(sym_obs) == len(conc_obs)
-                      and all(a[0] == b[0] and obs_equal(a[1], b[1]) for a, b in zip(sym_obs, conc_obs)))
+                if ctx.uf_used:
+                    ok = cexc is None and [a[0] for a in sym_obs] == [b[0] for b in conc_obs]
+                else:
+                    ok = (cexc is None and len(sym_obs) == len(conc_obs)
+                          and all(a[0] == b[0] and obs_equal(a[1], b[1]) for a, b in zip(sym_obs, conc_obs)))
                 bad_props = [l for (l, r, _) in CS.results if not r and l in proved]
                 if ok and bad_props:
                     ok = False
